@@ -1,7 +1,8 @@
 use std::fmt::Display;
 use std::str::FromStr;
 
-use bech32::Hrp;
+use bech32::primitives::decode::CheckedHrpstring;
+use bech32::{Bech32, Hrp};
 use enum_dispatch::enum_dispatch;
 use serde::{Deserialize, Serialize};
 #[cfg(all(feature = "wasm-bindgen", target_arch = "wasm32"))]
@@ -306,7 +307,12 @@ fn address_to_string(addr: &impl AddressTrait) -> String {
 }
 
 fn string_to_kind_and_id(s: &str) -> Result<(AddressKind, Id)> {
-    let (hrp, data) = bech32::decode(s).map_err(|_| Error::InvalidAddress(s.to_owned()))?;
+    // Addresses are encoded with the original Bech32 checksum. `bech32::decode`
+    // accepts the Bech32m checksum too, so the checksum variant is pinned here.
+    let checked =
+        CheckedHrpstring::new::<Bech32>(s).map_err(|_| Error::InvalidAddress(s.to_owned()))?;
+    let hrp = checked.hrp();
+    let data: Vec<u8> = checked.byte_iter().collect();
 
     let kind = hrp.as_str().parse()?;
     let bytes = data[..]
